@@ -153,9 +153,14 @@ where
 
     /// Set memory permissions for the page at the given address
     pub fn set_permissions(&mut self, address: u64, len: u64, permissions: MemoryPermissions) {
+        if len == 0 {
+            return;
+        }
+        // Work with the last address of the range, not the one after it: a range
+        // may end at the top of the address space.
         let mut page_address = address & PAGE_MASK;
-        let end_address = address + len;
-        while page_address < end_address {
+        let last_address = address.saturating_add(len - 1);
+        while page_address <= last_address {
             #[cfg(feature = "falcon_verif")]
             crate::verif::point("paged::set_permissions");
             RC::make_mut(
@@ -164,7 +169,10 @@ where
                     .or_insert_with(|| RC::new(Page::new(PAGE_SIZE))),
             )
             .set_permissions(Some(permissions));
-            page_address += PAGE_SIZE as u64;
+            page_address = match page_address.checked_add(PAGE_SIZE as u64) {
+                Some(page_address) => page_address,
+                None => break,
+            };
         }
     }
 
@@ -263,7 +271,9 @@ where
 
         // Handle backrefs that come after by finding the first address after
         // our write, truncating it to the appropriate size, and rewriting it
-        let address_after_write = address + (value.bits() / 8) as u64;
+        // (Address arithmetic wraps: a write, or the value it cuts, may end at the
+        // top of the address space, and address 0 never holds a backref.)
+        let address_after_write = address.wrapping_add((value.bits() / 8) as u64);
 
         let value_to_write = if let Some(MemoryCell::Backref(backref_address)) =
             self.load_cell(address_after_write)
@@ -274,9 +284,11 @@ where
                 .value()
                 .ok_or("Backref cell pointed to cell without value")?;
             // furthest most address backref value reaches
-            let backref_furthest_address = backref_address + (backref_value.bits() / 8) as u64;
+            let backref_furthest_address =
+                backref_address.wrapping_add((backref_value.bits() / 8) as u64);
             // how many bits are left after our write
-            let left_bits = ((backref_furthest_address - address_after_write) * 8) as usize;
+            let left_bits =
+                (backref_furthest_address.wrapping_sub(address_after_write) * 8) as usize;
             // load that value
             self.load(address_after_write, left_bits)?
         } else {
@@ -292,9 +304,10 @@ where
             if let Some(MemoryCell::Backref(backref_address)) = self.load_cell(address) {
                 let backref_value = self.load_cell(*backref_address).unwrap().value().unwrap();
                 // furthest most address backref value reaches
-                let backref_furthest_address = backref_address + (backref_value.bits() / 8) as u64;
+                let backref_furthest_address =
+                    backref_address.wrapping_add((backref_value.bits() / 8) as u64);
                 // how many bits are we about to overwrite
-                let overwrite_bits = (backref_furthest_address - address) * 8;
+                let overwrite_bits = backref_furthest_address.wrapping_sub(address) * 8;
                 // how many bits are left over
                 let left_bits = backref_value.bits() - overwrite_bits as usize;
                 Some((*backref_address, self.load(*backref_address, left_bits)?))
